@@ -466,6 +466,57 @@ def sequence_cases(ctx):
                         check_log_output(ctx, cid, cn + '.log', dict(P, j=j), L[j], tw, algebra, refs[j], Ss[j], grp[j][2])
 
 
+def mixed_sequences(ctx):
+    """multi-valued poses and twists whose values are of different kinds (identity, pure translation, rotation about an axis off the
+    origin, half turn) in every order of two and three: log, the pose <-> twist conversions and the twist exponential answer for value j
+    what they answer for value j alone (a branch must not be chosen from value 0)"""
+    import spatialmath as sm
+    kinds3 = [('I', np.zeros(6)), ('T', np.r_[1.0, -2.0, 0.5, 0, 0, 0]), ('R', np.r_[0.3, 0.2, -0.1, 0.4, -0.5, 0.6]), ('R0', np.r_[0, 0, 0, 0, 0, 1.2]), ('H', np.r_[0.5, 0, 0, math.pi - 1e-3, 0, 0])]
+    kinds2 = [('I', np.zeros(3)), ('T', np.r_[1.0, -2.0, 0.0]), ('R', np.r_[0.3, 0.2, 0.7]), ('R-', np.r_[0, 0, -1.2])]
+    for algebra, kinds, C, TW in (('se3', kinds3, sm.SE3, sm.Twist3), ('se2', kinds2, sm.SE2, sm.Twist2)):
+        cn, tn = C.__name__, TW.__name__
+        for N in (2, 3):
+            for combo in itertools.permutations(kinds, N):
+                names = '.'.join(k for k, _ in combo)
+                Ss = [S_.copy() for _, S_ in combo]
+                refs = [ref_exp(S_, algebra) for S_ in Ss]
+                base = 'C03/%s/mixed/%s' % (algebra, names)
+                P0 = dict(algebra=algebra, mode='mixed-sequence', N=N)
+                X = C([r.copy() for r in refs], check=False)
+                for route, f in ((cn + '.log/twist=1', lambda: X.log(twist=True)), (cn + '.log/twist=0', lambda: X.log(twist=False)),
+                                 ('%s.%s' % (cn, tn), lambda: [np.asarray(d) for d in getattr(X, tn)().data]), ('%s(%s)' % (tn, cn), lambda: [np.asarray(d) for d in TW(X).data])):
+                    cid = base + '/' + route
+                    if not ctx.want(cid):
+                        continue
+                    ctx.case(cid, key=cid)
+                    tw = not route.endswith('twist=0')
+                    ok, L = call(f)
+                    if not ok:
+                        ctx.fail(cid, route.split('/')[0], 'raises:' + type(L).__name__, P0, '%s on %s raised %r' % (route, names, L))
+                        continue
+                    if not isinstance(L, (list, np.ndarray)) or len(L) != N:
+                        ctx.fail(cid, route.split('/')[0], 'mismatch', dict(P0, what='count'), '%s of %d values gave %s' % (route, N, type(L).__name__))
+                        continue
+                    for j in range(N):
+                        th = abs(Ss[j][-1]) if algebra == 'se2' else float(np.linalg.norm(Ss[j][3:]))
+                        check_log_output(ctx, cid, route.split('/')[0], dict(P0, j=j, twist=int(tw)), L[j], tw, algebra, refs[j], Ss[j], th)
+                W = TW([S_.copy() for S_ in Ss])
+                for route, f in ((tn + '.exp', lambda: W.exp()), (tn + '.' + cn, lambda: getattr(W, cn)())):
+                    cid = base + '/' + route
+                    if not ctx.want(cid):
+                        continue
+                    ctx.case(cid, key=cid)
+                    ok, Y = call(f)
+                    if not ok:
+                        ctx.note('not_vectorised_refuses', '%s -> %s' % (route, type(Y).__name__))     # a loud refusal for multi-valued twists is C09's matter
+                        continue
+                    if type(Y) is not C or len(Y.data) != N:
+                        ctx.fail(cid, route, 'mismatch', dict(P0, what='count'), '%s of %d twists gave %s[%s]' % (route, N, type(Y).__name__, len(getattr(Y, 'data', []))))
+                        continue
+                    for j in range(N):
+                        check_exp_output(ctx, cid, route, dict(P0, j=j), Y.data[j], Ss[j], algebra, refs[j])
+
+
 # --------------------------------------------------------------------------- enumeration
 
 def integer_cases(ctx):
@@ -579,6 +630,7 @@ def shards(tier, seed):
         out.append(('unit', a))
     out.append(('seq',))
     out.append(('int',))
+    out.append(('mixed',))
     return out
 
 
@@ -592,5 +644,7 @@ def run_shard(ctx, shard):
         sequence_cases(ctx)
     elif shard[0] == 'int':
         integer_cases(ctx)
+    elif shard[0] == 'mixed':
+        mixed_sequences(ctx)
     else:
         unit_twist_cases(ctx, shard[1], ctx.tier, ctx.seed)
